@@ -15,9 +15,10 @@ import (
 //
 // One scenario per rooted tree shape (<= 4 user actors). The first choices of an execution pick the
 // program: stop operation 1 (kind x node), optional stop operation 2 (cost 1), optional third
-// operation (SpawnChild under a node, or Restart of a node; cost 1). Then every order of: start
-// operation k, release a PostStop gate, release the PreStart gate of the racing child / of a
-// restarted incarnation, let the death watch handle Terminated(x) (= tree removal).
+// operation (SpawnChild under a node, or Restart of a node; cost 1), optionally a delayed death watch
+// (cost 1). Then every order of: start operation k, release a PostStop gate, release the PreStart
+// gate of the racing child / of a restarted incarnation and, when the death watch is delayed, let it
+// handle Terminated(x) (= tree removal).
 //
 // Oracle:
 //   (1) log: when PostStop of X starts, no descendant of X has an open incarnation (PreStart
@@ -342,7 +343,18 @@ func c09Run(t *testing.T, shape c09Shape, cost3 int) func(c *vsched.Chooser) vsc
 					}
 					return "op3=restart(" + c09Name(i-1-n) + ")"
 				})
+				// the death watch handles Terminated immediately (default) or only when the explorer says
+				// so (cost 1: a slow death watch is an environment deviation like a fault)
+				dwDelayed := c.Choose("config", 2, []int{0, 1}, func(i int) string {
+					if i == 0 {
+						return "deathwatch=immediate"
+					}
+					return "deathwatch=delayed"
+				}) == 1
 				cfg := []string{opts[i1].label}
+				if dwDelayed {
+					cfg = append(cfg, "dw-delayed")
+				}
 				w.addOp(opts[i1].mk(cw))
 				cw.stopOps = 1
 				if i2 > 0 {
@@ -376,8 +388,10 @@ func c09Run(t *testing.T, shape c09Shape, cost3 int) func(c *vsched.Chooser) vsc
 				}
 				w.gatePolicy = func(a *lfActor, hook, msg string) bool {
 					switch hook {
-					case "post", "dw":
+					case "post":
 						return true
+					case "dw":
+						return dwDelayed
 					case "pre":
 						return a.name == "x" || a.curInc() > 1
 					}
@@ -449,14 +463,14 @@ func TestVerifC09(t *testing.T) {
 	}
 	for _, name := range order {
 		sh := byName[name]
-		// bounds (cost 1 = second stop operation; the third operation costs cost3):
-		//   quick:    <=2 actors: one extra operation of either kind; 3 actors: a second stop only
-		//             (cost3=2 exceeds the bound); 4 actors: single stop
-		//   thorough: <=3 actors: second stop and third operation; 4 actors: one extra operation
-		bound, cost3 := vsched.Pick(1, 2), 1
+		// deviation costs: second stop operation 1, third operation (SpawnChild/Restart) cost3, delayed
+		// death watch 1.
+		//   quick:    <=2 actors: bound 2; 3 actors: bound 1; 4 actors: bound 0 (single stop)
+		//   thorough: <=3 actors: bound 2; 4 actors: bound 1
+		bound, cost3 := 2, 1
 		switch len(sh.parent) {
 		case 3:
-			cost3 = vsched.Pick(2, 1)
+			bound = vsched.Pick(1, 2)
 		case 4:
 			bound = vsched.Pick(0, 1)
 		}
